@@ -9,8 +9,8 @@ if ! git apply --check $S/patch.diff 2>/dev/null; then echo "$N: patch does not 
 git apply $S/patch.diff
 T=$(cargo test --workspace --offline 2>&1 | grep -E "^test result" | sed -n 2p)
 mkdir -p rarena-allocator/tests; cp $S/seed_demo.rs rarena-allocator/tests/seed_demo.rs
-D1=$(timeout 300 cargo test -p rarena-allocator --offline --test seed_demo 2>&1 | grep -E "^test result" | tail -1)
+D1=$(timeout 300 cargo test -p rarena-allocator --offline --features memmap --test seed_demo 2>&1 | grep -E "^test result" | tail -1)
 git apply -R $S/patch.diff
-D0=$(timeout 300 cargo test -p rarena-allocator --offline --test seed_demo 2>&1 | grep -E "^test result" | tail -1)
+D0=$(timeout 300 cargo test -p rarena-allocator --offline --features memmap --test seed_demo 2>&1 | grep -E "^test result" | tail -1)
 echo "$N | suite with patch: $T | demo with patch: $D1 | demo without: $D0"
 cd /; git -C /repo worktree remove --force $W
